@@ -1,4 +1,7 @@
-From V Require Import Val LtsWire LtsOracle.
-Definition x_C04_lts (v : val) : val := lts_run v.
-(* v = (case observed): the oracle of Properties/C04.v, theorem C04_model_passes *)
-Definition x_C04_ok (v : val) : val := vbool (ok_C04 (dec_lcase (nthv 0 v)) (dec_obs (nthv 1 v))).
+From V Require Import Val LtsWire LtsOracle C04RawPkt C04Oracle.
+(* packets may be given by kind or by channel + RTP payload bytes (Model/C04RawPkt.v): the kind of
+   the latter is the classification of Model/C02Classify.v *)
+Definition x_C04_lts (v : val) : val := lts_run (norm_case v).
+(* v = (case observed): the oracle of Properties/C04.v, theorem C04_model_passes_on_the_wire_raw *)
+Definition x_C04_ok (v : val) : val :=
+  vbool (ok_C04x (dec_lcase (norm_case (nthv 0 v))) (dec_obs (nthv 1 v))).
